@@ -1,10 +1,14 @@
 #![cfg(feature = "v3_local")]
 use std::marker::PhantomData;
-use aes::Aes256Ctr;
+use aes::Aes256;
 use aes::cipher::generic_array::GenericArray;
 use aes::cipher::{NewCipher, StreamCipher};
 use crate::core::common::{CipherText, EncryptionKey};
 use crate::core::{Local, V3};
+
+// AES-256-CTR as the PASETO spec (and OpenSSL) define it: the whole 16 byte counter block is incremented as one
+// big-endian 128 bit integer (`aes::Aes256Ctr` only increments the low 64 bits and wraps without carry)
+type Aes256Ctr = ctr::Ctr128BE<Aes256>;
 
 impl CipherText<V3, Local> {
     pub(crate) fn from(payload: &[u8], encryption_key: &EncryptionKey<V3, Local>) -> Self {
